@@ -106,9 +106,9 @@ def random_formula(rng):
         return 0, rng.choice([[], [[]]])
     n = rng.randint(1, 6)
     used = rng.randint(1, n)       # variables above `used` do not occur
-    m = rng.randint(0, 10)
+    m = rng.randint(0, 2 * used + 1)
     cl = [[rng.choice([1, -1]) * rng.randint(1, used) for _ in range(rng.randint(1, 3))] for _ in range(m)]
-    if rng.random() < 0.1:
+    if rng.random() < 0.06:
         cl.insert(rng.randrange(len(cl) + 1), [])
     return n, cl
 
@@ -240,7 +240,7 @@ def _run(ctx, quick, rng, base):
               dict(terminator='own-line', split=True), dict(terminator='none'), dict(shuffled=True, split=True), dict(no_final_newline=True)]
 
     # ---- stream 1: truthful solvers, every supported name through sameas, three conventions ----
-    reps = 2 if quick else 12
+    reps = 8 if quick else 40
     for name, kind in TABLE:
         for rep in range(reps):
             for method in ('solve', 'is_satisfiable') if rep == 0 else ('solve',):
@@ -257,7 +257,7 @@ def _run(ctx, quick, rng, base):
                 ctx.tally('convention', kind)
                 ctx.tally('output style', ','.join(sorted(k for k in style)) or 'plain')
     # ---- stream 2: supported names found on PATH (cmd given, or cmd=None with a set of installed solvers) ----
-    for rep in range(12 if quick else 120):
+    for rep in range(80 if quick else 600):
         nvars, clauses = random_formula(rng)
         A = brute_model(nvars, clauses)
         status = 'sat' if A is not None else 'unsat'
@@ -294,7 +294,7 @@ def _run(ctx, quick, rng, base):
         ctx.tally('installed solvers', len(subset))
         ctx.tally('command', mode)
     # ---- stream 3: errors: unknown sameas, unsupported command, missing solver, failing solver, no answer ----
-    for rep in range(4 if quick else 30):
+    for rep in range(8 if quick else 50):
         nvars, clauses = random_formula(rng)
         fp = fake_path(0)
         new_case('errors', 'sameas-unknown', nvars, clauses, fp, rng.choice(['zchaff', 'MiniSat', '', 'minisat ', 'lingeling2']),
@@ -318,7 +318,7 @@ def _run(ctx, quick, rng, base):
     # ---- stream 4: malformed outputs (no promise in C20 beyond "an error or a verdict"; model agreement is what is checked) ----
     alphabet = ['s', 'v', 'c', ' ', ' ', '\n', '\n', '\r', '\t', '0', '1', '2', '-', '+', '_', 'SATISFIABLE', 'UNSATISFIABLE', 'SAT', 'UNSAT',
                 'x', '\x0b', '\x0c', '\x1c', '\x1f', '10', '-3', 's ', 'v ', '\ns SATISFIABLE\n', '\nv 1 -2 0\n']
-    for rep in range(40 if quick else 600):
+    for rep in range(250 if quick else 3000):
         nvars, clauses = random_formula(rng)
         name, kind = rng.choice(TABLE)
         text = ''.join(rng.choice(alphabet) for _ in range(rng.randint(0, 14)))
@@ -453,7 +453,10 @@ def _run(ctx, quick, rng, base):
                 if given != r['dimacs']:
                     fails.append(('wrong-input', 'the solver did not receive F.to_dimacs()'))
             else:
-                fails.append(('wrong-input', 'the solver expected by the model (%s) did not run' % nm))
+                ctx.violation('correspondence', 'the solver the model selects (%s) is not the one that ran; theorems C20_first_installed_wins / '
+                              'C20_command_interface no longer cover the code' % nm,
+                              dict(input=descr, implementation=r, model=[rep, rep_full], correspondence='Solver.v sat_solve <-> cnfgen/utils/solver.py sat_solve'),
+                              False, site='sat_solve', cls='other-solver-ran')
         for clsname, what in fails:
             ctx.disagreements_checked += 1
             site = iface or 'sat_solve'
